@@ -131,14 +131,23 @@ def rand_net(rng, inside_lines=None, faults=True):
     return net
 
 
-def rand_sched(rng):
-    return {'policy': rng.choice(['random', 'random', 'rr', 'run_to_block', 'prio']), 'seed': rng.getrandbits(32)}
+def rand_sched(rng, preempt=False):
+    sc = {'policy': rng.choice(['random', 'random', 'rr', 'run_to_block', 'prio']), 'seed': rng.getrandbits(32)}
+    if preempt:
+        # worker threads are additionally pre-empted at line events of the code under test
+        sc['preempt_p'] = rng.choice([1 / 64.0, 1 / 32.0, 1 / 16.0])
+    return sc
 
 
 def rand_knobs(rng):
     kn = {'cpu_cost': rng.choice([[1, 5], [1, 50], [10, 200]])}
     if rng.random() < 0.1:
         kn['dh_exponent'] = 'full'
+    r = rng.random()
+    if r < 0.04:
+        kn['urandom'] = 'zeros'      # legal, if unlikely, outcomes of the system's randomness
+    elif r < 0.08:
+        kn['urandom'] = 'ones'
     return kn
 
 
